@@ -176,7 +176,12 @@ impl Identity {
 }
 
 pub fn client_config(id: &Identity) -> quinn::ClientConfig {
-    let crypto = rustls::ClientConfig::builder_with_provider(Arc::new(
+    client_config_sni(id, true)
+}
+
+/// `send_sni = false`: the hello carries no server-name extension at all.
+pub fn client_config_sni(id: &Identity, send_sni: bool) -> quinn::ClientConfig {
+    let mut crypto = rustls::ClientConfig::builder_with_provider(Arc::new(
         rustls::crypto::ring::default_provider(),
     ))
     .with_protocol_versions(&[&rustls::version::TLS13])
@@ -184,6 +189,7 @@ pub fn client_config(id: &Identity) -> quinn::ClientConfig {
     .dangerous()
     .with_custom_certificate_verifier(Arc::new(AcceptAnyServer))
     .with_client_cert_resolver(Arc::new(FixedClientCert(id.certified())));
+    crypto.enable_sni = send_sni;
     quinn::ClientConfig::new(Arc::new(
         quinn::crypto::rustls::QuicClientConfig::try_from(crypto).unwrap(),
     ))
@@ -249,9 +255,8 @@ impl Adversary {
         sni: &str,
         id: &Identity,
     ) -> Result<quinn::Connection, String> {
-        let c = self
-            .endpoint
-            .connect_with(client_config(id), to, sni)
+        // "<none>": a hello without a server-name extension
+        let c = if sni == "<none>" { self.endpoint.connect_with(client_config_sni(id, false), to, "unnamed") } else { self.endpoint.connect_with(client_config(id), to, sni) }
             .map_err(|e| format!("connect: {e}"))?;
         c.await.map_err(|e| format!("handshake: {e}"))
     }
